@@ -1,6 +1,6 @@
 """C07 — failed tests are retried as configured: count, stop on success, backoff."""
 import vlib
-from props import common
+from props import common, mix
 
 THM = "NextestModel.Thm.C07"
 GEN = []
@@ -8,7 +8,7 @@ TRUSTED = ["model: Model/Classify (BackoffIter over exact nanoseconds); f64 roun
 ASSUMPTIONS = ["PARTIAL: the attempt loop itself (retry after each failed attempt until a pass or N+1 attempts, never after a pass, never once cancelled, delay respected with pauses excluded) is executor behaviour, exercised end-to-end only (pending); --retries replacing every policy is C06.cli_retries_wins plus the end-to-end engine"]
 
 
-def run(seed, tier, replay=None):
+def run_p(seed, tier, replay=None):
     n = 1500 if tier == "quick" else 40000
     r = common.run_streams([("p_exec", [seed, n])])
     items = [([b, args, idx], req, impl) for (b, args, idx, req, impl) in r.cases if req.startswith("backoff ")]
@@ -38,5 +38,9 @@ def run(seed, tier, replay=None):
         "samples": samples, "traces": len(items), "dist": r.dist,
         "violations": violations, "broken": r.broken, "impl_failures": r.impl_failures,
     }
+
+
+def run(seed, tier, replay=None):
+    return mix.merge(run_p(seed, tier, replay), mix.check([mix.mon_retries], seed, tier))
 
 KNOWN_MATCHERS = {}
